@@ -13,7 +13,8 @@
    packets of one item, chosen nondeterministically from Items (at most MaxScript items,
    then silence), to the queue the client reads from; an empty queue reads as io.EOF.
    PK_OK items are relative to the request they answer (same/other key; same algorithm /
-   another algorithm of the key's format / a foreign one).
+   another algorithm of the key's format / the algorithm of the other family -- certificate
+   versus plain -- for the same key type / a foreign one).
 
    The property is SSHAuthObserver's monitor, driven by the events: invariants Q1..Q5.
    Instead of the script the server can be a model of the Go server (serverAuthenticate as
@@ -200,6 +201,10 @@ GoReact(e) == LET a == GoAnswer(e) IN
 AltAlgo(f, a) == LET L == AlgsForFormat(f)
                      I == {i \in 1..Len(L) : L[i] # a}
                  IN IF I = {} THEN a ELSE L[MinOf(I)]
+(* the algorithm of the other family (plain <-> certificate) for the same key type *)
+CrossAlgo(a) == CASE a = R256 -> CR256 [] a = R512 -> CR512 [] a = RSA -> CRSA [] a = ED -> CED [] a = EC256 -> CEC256
+                  [] a = CR256 -> R256 [] a = CR512 -> R512 [] a = CRSA -> RSA [] a = CED -> ED [] a = CEC256 -> EC256
+                  [] OTHER -> DSS
 Resolve(tpl, req) ==
   IF tpl.t # "pkok" THEN tpl
   ELSE LET isPk == req.k = "req" /\ req.m = PK IN
@@ -207,6 +212,7 @@ Resolve(tpl, req) ==
                    !.algo = IF ~isPk THEN DSS
                             ELSE CASE tpl.algo = "@same" -> req.algo
                                    [] tpl.algo = "@fmt" -> AltAlgo(req.fmt, req.algo)
+                                   [] tpl.algo = "@cross" -> CrossAlgo(IF req.algo = "" THEN req.fmt ELSE req.algo)
                                    [] OTHER -> DSS]
 ResolveAll(pkts, req) == [j \in 1..Len(pkts) |-> Resolve(pkts[j], req)]
 
